@@ -1,5 +1,6 @@
 import FsutilModel.Walk
 import FsutilModel.Model.WalkB
+import FsutilModel.WalkBuild
 /-! # C09 — Walk lists every entry once, parents first, in protocol path order -/
 namespace Fsm.C09
 
@@ -21,6 +22,13 @@ theorem dir_before_contents (pre : Path) (hp : pre ≠ []) (t : Node) (h : WF t)
     (hx : x ∈ walk pre t) : ∃ r, x = pre ++ sep :: r ∧ comparePath pre x < 0 := by
   obtain ⟨r, hr⟩ := walk_under pre hp t h x hx
   exact ⟨r, hr, by rw [hr]; exact cmp_parent_lt pre r⟩
+
+/-- For the executable model the correspondence runs: whatever set of entries a snapshot contains (paths whose
+components are non-empty and separator-free), the order in which `fs.Walk` visits them — the pre-order walk of the
+tree built from those paths — is strictly ascending in the protocol's path comparison. -/
+theorem walk_order_ascending (paths : List Path) (h : ∀ p ∈ paths, ∀ c ∈ comps p, NameOK c) :
+    (walk [] (buildTree paths)).Pairwise (fun a b => comparePath a b < 0) :=
+  walk_ascending [] (buildTree paths) (buildTree_WF paths h)
 
 /-- non-vacuity: the tree a/{b}, "a b", "a-b" is well-formed and walks as a, a/b, a b, a-b -/
 example : walk [] (.dir [([97], .dir [([98], .file)]), ([97, 32, 98], .file), ([97, 45, 98], .file)])
